@@ -694,6 +694,11 @@ func mergeStates(base int, states []*State) *State {
 					v = scalarV(mathintType, mkInt(sortMath, 0))
 					has = true
 				}
+				if !has && (k == "aead.open.ok" || k == "aead.seal.ok") {
+					// no such AEAD operation on that path
+					v = boolV(tFalse)
+					has = true
+				}
 				if !has && get(live[0]) != nil && !strings.HasPrefix(k, "calls:") {
 					// ghost bookkeeping without a Go type (sort witnesses, AEAD trace): keep only if present everywhere
 					untyped := false
